@@ -6,6 +6,7 @@ import json
 import math
 
 from ..core import World, Violation, Skip
+from ..filekit import side_stream
 
 H2O_LOW = [4.19864056E+00, -2.03643410E-03, 6.52040211E-06, -5.48797062E-09, 1.77197817E-12,
            -3.02937267E+04, -8.49032208E-01]
@@ -141,6 +142,12 @@ class WorldC13(World):
         for j in NAMES_J:
             if rng.random() < 0.4:
                 cond[j + '_kwargs'] = {'x': rng.choice([round(rng.uniform(0, 1), 3)] * 4 + [0.0, 1.0])}
+        side = side_stream(rng)
+        if len(cond) > 1 and side.random() < 0.5:
+            # keyword order is the caller's business: a per-species block may come before the general value it overrides
+            keys = list(cond)
+            side.shuffle(keys)
+            cond = {k_: cond[k_] for k_ in keys}
         return {'c': c, 'op': 'eval', 'args': {'id': k, 'T': T, 'cond': cond,
                                                'q': rng.choice(['CpoR', 'HoRT', 'SoR', 'GoRT', 'all'])}}
 
